@@ -1,6 +1,7 @@
 package filesystem
 
 import (
+	"github.com/ARM-software/golang-utils/utils/hashing"
 	"bytes"
 	"context"
 	"os"
@@ -29,7 +30,7 @@ func vPopulate(fs FS, n int) {
 	_ = fs.WriteFile("/dirs.zip", vBuildZip(dirs), 0o644)
 }
 
-const vNumCtxOps = 23
+const vNumCtxOps = 32
 
 // vCtxOp invokes the k-th context-accepting entry point.
 func vCtxOp(ctx context.Context, fs FS, k int) error {
@@ -82,6 +83,25 @@ func vCtxOp(ctx context.Context, fs FS, k int) error {
 		_, err = fs.UnzipWithContext(ctx, "/a.zip", "/unz")
 	case 22:
 		_, err = fs.UnzipWithContext(ctx, "/dirs.zip", "/unzd")
+	case 23:
+		err = fs.ChownRecursively(ctx, "/r", 1, 1)
+	case 24:
+		_, err = fs.LsRecursiveWithExclusionPatternsAndLimits(ctx, "/r", DefaultLimits(), true, "zz")
+	case 25:
+		_, err = fs.FileHashWithContext(ctx, hashing.HashSha256, "/single")
+	case 26:
+		_, err = fs.SubDirectoriesWithContextAndExclusionPatterns(ctx, "/r", "zz")
+	case 27:
+		var l []string
+		err = fs.ListDirTreeWithContextAndExclusionPatterns(ctx, "/r", &l, "zz")
+	case 28:
+		_, err = fs.IsZipWithContext(ctx, "/a.zip")
+	case 29:
+		err = fs.ZipWithContextAndLimitsAndExclusionPatterns(ctx, "/r", "/out2.zip", DefaultLimits(), "zz")
+	case 30:
+		_, err = fs.UnzipWithContextAndLimits(ctx, "/a.zip", "/unz2", DefaultLimits())
+	case 31:
+		err = fs.WalkWithContextAndExclusionPatterns(ctx, "/r", func(string, os.FileInfo, error) error { return nil }, "zz")
 	}
 	return err
 }
@@ -126,7 +146,7 @@ func VerifC09_MidRun() {
 	rec.reset()
 	ctx, cancel := context.WithCancel(context.Background())
 	defer cancel()
-	ops := []int{0, 2, 4, 5, 9, 11, 16, 17, 19, 20, 21, 22}
+	ops := []int{0, 2, 4, 5, 9, 11, 16, 17, 19, 20, 21, 22, 23, 24, 26, 27, 29}
 	k := ops[verif.Choice("op", len(ops))]
 	cancelAfter := verif.Len("cancelAfter", 1, 12)
 	count := 0
